@@ -184,6 +184,16 @@ def gen(rng, w, cap, digs, n):
                     b = 0
                 toks += [hx(rng.choice(bs)), hx(b)]
             out.append(" ".join(["nt_mxp_few", hx(rng.choice([0, 1, -5, rng.bits(w)])), hx(m)] + toks))
+    # 3d. every table index is read: all exponents all-ones of one length (parities = 2^n - 1), and one exponent cleared in turn
+    for nn in (2, 3, 4, 5, 6, 7, 8):
+        for clear in (-1, rng.below(nn)):
+            m = modulus(rng, w, digs)
+            bs = [x for x in bases(rng, w, digs, m) if x % m not in (0, 1)] or [2]
+            lb = rng.choice([1, 2, 5])
+            toks = []
+            for i in range(nn):
+                toks += [hx(rng.choice(bs)), hx(((1 << lb) - 1) if i != clear else rng.choice([0, 1 << (lb - 1)]))]
+            out.append(" ".join(["nt_mxp_few", "0", hx(m)] + toks))
     # 4. random lines
     for _ in range(n):
         k = rng.below(10)
